@@ -229,7 +229,7 @@ impl SVCB {
             // get the value, and remove any quotes
             let mut value = key_value.next();
             if let Some(value) = value.as_mut() {
-                if value.starts_with('"') && value.ends_with('"') {
+                if value.len() >= 2 && value.starts_with('"') && value.ends_with('"') {
                     *value = &value[1..value.len() - 1];
                 }
             }
@@ -321,7 +321,7 @@ fn parse_mandatory(value: Option<&str>) -> Result<SvcParamValue, ParseError> {
 fn parse_alpn(value: Option<&str>) -> Result<SvcParamValue, ParseError> {
     let value = value.ok_or(ParseError::Message("expected at least one ALPN code"))?;
 
-    let alpns = parse_list::<String>(value).expect("infallible");
+    let alpns = parse_list::<String>(value)?;
     Ok(SvcParamValue::Alpn(Alpn(alpns)))
 }
 
